@@ -6,6 +6,7 @@ package avro
 
 import (
 	"bytes"
+	"reflect"
 	"compress/flate"
 	"encoding/binary"
 	"errors"
@@ -86,7 +87,16 @@ type verifRec struct {
 
 func verifFillRec(v *verifRec, tag string) {
 	v.A = verifNarrow(tag + ".A")
-	v.B = verifString(tag+".B", verifChoice(tag+".B.len", 2))
+	v.B = verifString(tag+".B", 1)
+}
+
+// verifLayouts: record counts per block of the files explored.
+func verifLayouts() [][]int {
+	l := [][]int{{1}, {2, 1}, {1, 1}, {0, 1}}
+	if verifThorough() {
+		l = append(l, []int{2, 2}, []int{1, 0, 2}, []int{0}, []int{3})
+	}
+	return l
 }
 
 func verifRecEq(a, b *verifRec) bool {
@@ -173,11 +183,8 @@ func (k *verifSink) cb(val unsafe.Pointer, rb *ResourceBank) error {
 func verifHarness_C07_intact() {
 	verifAllocMax(4096)
 	comp := verifCompression(verifChoice("codec", 3))
-	nb := 1 + verifChoice("blocks", 2)
-	counts := make([]int, nb)
-	for i := range counts {
-		counts[i] = verifChoice("count", 3)
-	}
+	lay := verifLayouts()
+	counts := lay[verifChoice("layout", len(lay))]
 	f := verifBuildFile(comp, counts)
 	sink := &verifSink{failAt: -1}
 	err := ReadFile(&verifReader{buf: f.data}, verifRec{}, sink.cb)
@@ -248,6 +255,7 @@ func verifHarness_C07_snappy_checksum() {
 // that the real decompressor reports must make ReadFile fail.
 func verifHarness_C07_decompressor_rejects() {
 	verifAllocMax(4096)
+	verifNoValidate()
 	compk := 1 + verifChoice("codec", 2)
 	comp := verifCompression(compk)
 	f := verifBuildFile(comp, []int{1})
@@ -392,14 +400,24 @@ func verifHeaderWith(keys []string, vals [][]byte, sync [16]byte) []byte {
 func verifHarness_C08_truncation() {
 	verifAllocMax(4096)
 	comp := verifCompression(verifChoice("codec", 3))
-	var counts []int
-	if verifChoice("blocks", 2) == 0 {
-		counts = []int{1 + verifChoice("count0", 2)}
-	} else {
-		counts = []int{1, 1 + verifChoice("count1", 2)}
+	lay := [][]int{{1}, {1, 1}, {0, 2}}
+	if verifThorough() {
+		lay = verifLayouts()
 	}
+	counts := lay[verifChoice("layout", len(lay))]
 	f := verifBuildFile(comp, counts)
-	cut := verifChoice("cut", len(f.data)+1)
+	// the crash point, expressed relative to a structural anchor (end of the
+	// header or of a block) so that the same choice denotes the same kind of
+	// position in the natively built file, whose header and compressed
+	// payloads have other lengths
+	anchors := append([]int{f.hdrEnd}, f.blockEnd...)
+	k := verifChoice("cut.anchor", len(anchors))
+	prev := -1
+	if k > 0 {
+		prev = anchors[k-1]
+	}
+	back := verifChoice("cut.back", anchors[k]-prev)
+	cut := anchors[k] - back
 	sink := &verifSink{failAt: -1}
 	err := ReadFile(&verifReader{buf: f.data[:cut]}, verifRec{}, sink.cb)
 	// which blocks are completely present (payload) / where success is allowed
@@ -414,14 +432,14 @@ func verifHarness_C08_truncation() {
 		}
 	}
 	verifAssert(len(sink.got) == want, "C08:delivers-exactly-the-records-of-complete-blocks")
-	k := 0
+	k2 := 0
 	ok := true
 	for bi := range f.recs {
 		for i := range f.recs[bi] {
-			if k < len(sink.got) {
-				ok = verifAnd(ok, verifRecEq(&f.recs[bi][i], &sink.got[k]))
+			if k2 < len(sink.got) {
+				ok = verifAnd(ok, verifRecEq(&f.recs[bi][i], &sink.got[k2]))
 			}
-			k++
+			k2++
 		}
 	}
 	verifAssert(ok, "C08:delivered-records-are-unmodified")
@@ -473,26 +491,17 @@ func refParseBlocks(data []byte, sync [16]byte) (blocks []verifBlock, ok bool) {
 // engine the model compressors are tagged identities; natively the real ones
 // run and the payload is compared after real decompression.
 func refDecompress(comp Compression, c []byte) ([]byte, bool) {
-	var d compressionCodec
-	switch comp {
-	case CompressionNull:
-		return c, true
-	case CompressionDeflate:
-		d = &deflate{}
-	case CompressionSnappy:
-		d = &snappyCodec{}
-	}
-	out, err := d.decompress(c)
-	return append([]byte(nil), out...), err == nil
+	return refRawDecompress(comp, c)
 }
 
 // A bounded history of encode / flush calls from a fresh encoder: the bytes
 // after the header are exactly the blocks the history implies.
 func verifHarness_C09_history() {
 	verifAllocMax(4096)
+	verifUnwind(400)
 	compk := verifChoice("codec", 3)
 	comp := verifCompression(compk)
-	bs := verifChoice("blocksize", 6) // 0..5 bytes: both the size-triggered and the flush-triggered path
+	bs := verifC09BlockSize(verifChoice("blocksize", 4)) // both the size-triggered and the flush-triggered path
 	rec := &verifRecorder{failAt: -1}
 	e, err := NewEncoderFor[verifRec](rec, comp, bs)
 	verifAssert(err == nil, "C09:encoder-created")
@@ -540,6 +549,12 @@ func verifHarness_C09_history() {
 	}
 	verifCheckBlocks(rec.all()[hdr:], sync, comp, wantBlocks, "C09")
 	verifReach("end")
+}
+
+// records encode to 3 or 4 bytes: 0 = every record is a block, 4 / 7 = a block
+// every one-two / two-three records, 100 = only flush emits
+func verifC09BlockSize(k int) int {
+	return []int{0, 4, 7, 100}[k]
 }
 
 func verifC09Ops() int {
@@ -648,12 +663,14 @@ func verifHarness_C09_step() {
 // C16: the writer fails on its k-th write, for every k.
 func verifHarness_C16_faults() {
 	verifAllocMax(4096)
+	verifUnwind(400)
 	comp := verifCompression(verifChoice("codec", 3))
-	bs := verifChoice("blocksize", 4)
+	bs := 3 * verifChoice("blocksize", 2) // 0: every record is a block; 3: the first record stays buffered
 	// fault-free twin with the same sync marker and the same calls
 	good := &verifRecorder{failAt: -1}
-	bad := &verifRecorder{failAt: verifChoice("failAt", 10), failErr: errVerifWriter}
-	nops := 1 + verifChoice("ops", 3)
+	nops := 1 + verifChoice("ops", verifC16Ops())
+	// the header is one write, every block four
+	bad := &verifRecorder{failAt: verifChoice("failAt", 2+4*nops), failErr: errVerifWriter}
 	ops := make([]int, nops)
 	vals := make([]verifRec, nops)
 	for i := range ops {
@@ -682,7 +699,8 @@ func verifHarness_C16_faults() {
 		verifAssert(errors.Is(err, errVerifWriter), "C16:error-wraps-the-writer-error")
 		sawErr = true
 	} else {
-		eb.fw.sync = sync
+		// "a fault-free run with the same sync marker": re-mark the twin's output
+		full = verifResync(full, len(good.chunks[0]), sync, eb.fw.sync)
 		for i := 0; i <= len(ops) && !sawErr; i++ {
 			wasFailed := bad.failed
 			var err error
@@ -705,7 +723,6 @@ func verifHarness_C16_faults() {
 	verifAssert(bad.afterFail == 0, "C16:no-write-attempted-after-the-failed-one")
 	acc := bad.all()
 	if bad.failed && err == nil {
-		// the sync marker was aligned, so the accepted bytes must be a prefix
 		isPrefix := len(acc) <= len(full)
 		if isPrefix {
 			isPrefix = refBytesEq(acc, full[:len(acc)])
@@ -719,9 +736,38 @@ func verifHarness_C16_faults() {
 	}
 }
 
+func verifC16Ops() int {
+	if verifThorough() {
+		return 3
+	}
+	return 2
+}
+
+// verifResync rewrites every sync marker of a well-formed container (header of
+// hdrLen bytes followed by blocks) from one value to another.
+func verifResync(full []byte, hdrLen int, from, to [16]byte) []byte {
+	out := append([]byte(nil), full...)
+	copy(out[hdrLen-16:hdrLen], to[:])
+	pos := hdrLen
+	for pos < len(out) {
+		_, n, ok1 := refReadLong(out, pos)
+		if !ok1 {
+			break
+		}
+		l, n2, ok2 := refReadLong(out, n)
+		if !ok2 || l < 0 || n2+int(l)+16 > len(out) {
+			break
+		}
+		copy(out[n2+int(l):n2+int(l)+16], to[:])
+		pos = n2 + int(l) + 16
+	}
+	return out
+}
+
 // FileWriter used directly: WriteHeader and WriteBlock with a fault at every write index.
 func verifHarness_C16_filewriter() {
 	verifAllocMax(4096)
+	verifUnwind(400)
 	comp := verifCompression(verifChoice("codec", 3))
 	fw, err := NewFileWriter([]byte("{}"), comp)
 	verifAssume(err == nil)
@@ -755,7 +801,7 @@ func verifHarness_C06_file_arbitrary() {
 	n := verifChoice("len", verifC06FileLen()+1)
 	buf := verifBytes("buf", n)
 	verifUnwind(2*n + 24)
-	verifAllocMax(2*n + 64)
+	verifAllocMax(2*n + 16)
 	sink := &verifSink{failAt: -1}
 	err := ReadFile(&verifReader{buf: buf}, verifRec{}, sink.cb)
 	verifObserveBool("err", err != nil)
@@ -794,7 +840,7 @@ func verifHarness_C06_blocks_arbitrary() {
 	tail := verifBytes("tail", n)
 	data = append(data, tail...)
 	verifUnwind(2*n + 40)
-	verifAllocMax(2*n + 1100)
+	verifAllocMax(2*n + 16)
 	sink := &verifSink{failAt: -1}
 	err := ReadFile(&verifReader{buf: data}, verifRec{}, sink.cb)
 	verifObserveBool("err", err != nil)
@@ -835,16 +881,12 @@ func verifHarness_C10_retained_records() {
 	for bi := 0; bi < 3; bi++ {
 		v := &want[bi]
 		tag := "r" + string(rune('0'+bi))
-		v.S = verifString(tag+".S", verifChoice(tag+".S.len", 3))
-		v.B = verifBytes(tag+".B", verifChoice(tag+".B.len", 3))
-		if verifChoice(tag+".P.nil", 2) == 0 {
-			v.P = new(int64)
-			*v.P = verifNarrow(tag + ".P")
-		}
-		nl := verifChoice(tag+".L.len", 2)
-		for i := 0; i < nl; i++ {
-			v.L = append(v.L, verifString(tag+".L", 1))
-		}
+		// shapes are fixed (every field non-empty); contents are symbolic
+		v.S = verifString(tag+".S", 2)
+		v.B = verifBytes(tag+".B", 2)
+		v.P = new(int64)
+		*v.P = int64(verifNondetU8(tag + ".P"))
+		v.L = append(v.L, verifString(tag+".L", 1))
 		w := NewWriteBuf(nil)
 		c.Write(w, unsafe.Pointer(v))
 		rec := &verifRecorder{failAt: -1}
@@ -894,4 +936,306 @@ func verifHarness_C10_retained_records() {
 		}
 	}
 	verifReach("end")
+}
+
+// ---------------------------------------------------------------- C01 end to end
+
+// The public path, end to end: NewEncoderFor -> Encode / Flush history ->
+// bytes -> ReadFile into the same type: same number of records, same order,
+// same values, for every codec, block size and flush pattern in the bound.
+func verifHarness_C01_e2e() {
+	verifAllocMax(4096)
+	verifUnwind(400)
+	comp := verifCompression(verifChoice("codec", 3))
+	bs := verifC09BlockSize(verifChoice("blocksize", 4))
+	rec := &verifRecorder{failAt: -1}
+	e, err := NewEncoderFor[verifRec](rec, comp, bs)
+	verifAssert(err == nil, "C01:encoder-created")
+	if err != nil {
+		return
+	}
+	nops := 1 + verifChoice("ops", verifC09Ops())
+	var want []verifRec
+	for i := 0; i < nops; i++ {
+		if verifChoice("op", 2) == 0 {
+			var v verifRec
+			verifFillRec(&v, "v"+string(rune('0'+i)))
+			want = append(want, v)
+			verifAssert(e.Encode(&v) == nil, "C01:encode-ok")
+		} else {
+			verifAssert(e.Flush() == nil, "C01:flush-ok")
+		}
+	}
+	verifAssert(e.Flush() == nil, "C01:final-flush-ok")
+	sink := &verifSink{failAt: -1}
+	err = ReadFile(&verifReader{buf: rec.all()}, verifRec{}, sink.cb)
+	verifAssert(err == nil, "C01:file-reads-back-without-error")
+	verifAssert(len(sink.got) == len(want), "C01:same-number-of-records")
+	ok := true
+	for i := range want {
+		if i < len(sink.got) {
+			ok = verifAnd(ok, verifRecEq(&want[i], &sink.got[i]))
+		}
+	}
+	verifAssert(ok, "C01:same-records-in-the-same-order")
+	verifReach("end")
+}
+
+// ---------------------------------------------------------------- C02 container layout
+
+// refInflate / refUnsnappy: decompression for the reference container parser,
+// calling the compression libraries directly (not the library's wrappers).
+func refRawDecompress(comp Compression, c []byte) ([]byte, bool) {
+	switch comp {
+	case CompressionNull:
+		return c, true
+	case CompressionDeflate:
+		fr := flate.NewReader(bytes.NewReader(c))
+		var out []byte
+		var tmp [8]byte
+		for {
+			n, err := fr.Read(tmp[:])
+			out = append(out, tmp[:n]...)
+			if err == io.EOF {
+				return out, true
+			}
+			if err != nil {
+				return nil, false
+			}
+		}
+	case CompressionSnappy:
+		if len(c) < 4 {
+			return nil, false
+		}
+		out, err := snappy.Decode(nil, c[:len(c)-4])
+		if err != nil {
+			return nil, false
+		}
+		return out, crc32.ChecksumIEEE(out) == binary.BigEndian.Uint32(c[len(c)-4:])
+	}
+	return nil, false
+}
+
+// The header and one block written by the real FileWriter, parsed by a
+// reference container parser written from the specification.
+func verifHarness_C02_container() {
+	verifAllocMax(4096)
+	verifUnwind(400)
+	compk := verifChoice("codec", 3)
+	comp := verifCompression(compk)
+	schema := verifBytes("schema", verifChoice("schemalen", 3))
+	fw, err := NewFileWriter(schema, comp)
+	verifAssert(err == nil, "C02:filewriter-created")
+	if err != nil {
+		return
+	}
+	rec := &verifRecorder{failAt: -1}
+	verifAssert(fw.WriteHeader(rec) == nil, "C02:header-written")
+	hdr := rec.all()
+	// magic
+	verifAssert(len(hdr) >= 4 && hdr[0] == 'O' && hdr[1] == 'b' && hdr[2] == 'j' && hdr[3] == 1, "C02:magic")
+	// metadata map: blocks of (count, entries) until a zero count
+	pos := 4
+	seenSchema, seenCodec, okMeta, entries := false, false, true, 0
+	for blocks := 0; blocks < 4 && okMeta; blocks++ {
+		cnt, n, ok := refReadLong(hdr, pos)
+		if !ok {
+			okMeta = false
+			break
+		}
+		pos = n
+		if cnt == 0 {
+			break
+		}
+		if cnt < 0 {
+			cnt = -cnt
+			_, n, ok = refReadLong(hdr, pos)
+			if !ok {
+				okMeta = false
+				break
+			}
+			pos = n
+		}
+		for ; cnt > 0 && okMeta; cnt-- {
+			kl, n, ok := refReadLong(hdr, pos)
+			if !ok || kl < 0 || n+int(kl) > len(hdr) {
+				okMeta = false
+				break
+			}
+			key := string(hdr[n : n+int(kl)])
+			pos = n + int(kl)
+			vl, n2, ok := refReadLong(hdr, pos)
+			if !ok || vl < 0 || n2+int(vl) > len(hdr) {
+				okMeta = false
+				break
+			}
+			val := hdr[n2 : n2+int(vl)]
+			pos = n2 + int(vl)
+			entries++
+			if key == "avro.schema" {
+				seenSchema = true
+				verifAssert(refBytesEq(val, schema), "C02:metadata-carries-the-schema-given")
+			}
+			if key == "avro.codec" {
+				seenCodec = true
+				verifAssert(string(val) == string(comp), "C02:metadata-carries-the-codec-name")
+			}
+		}
+	}
+	verifAssert(okMeta, "C02:metadata-map-is-well-formed")
+	verifAssert(seenSchema && seenCodec && entries == 2, "C02:metadata-has-exactly-schema-and-codec")
+	verifAssert(okMeta && pos+16 == len(hdr), "C02:header-ends-with-the-16-byte-sync-marker")
+	var sync [16]byte
+	if okMeta && pos+16 == len(hdr) {
+		copy(sync[:], hdr[pos:])
+		verifAssert(sync == fw.sync, "C02:header-sync-is-the-writers-sync")
+	}
+	// one block: exact count, exact byte size, payload, sync
+	payload := verifBytes("payload", verifChoice("plen", 4))
+	rows := int(verifNarrow("rows"))
+	verifAssume(rows >= 0)
+	rec2 := &verifRecorder{failAt: -1}
+	verifAssert(fw.WriteBlock(rec2, rows, payload) == nil, "C02:block-written")
+	blocks, ok := refParseBlocks(rec2.all(), sync)
+	verifAssert(ok && len(blocks) == 1, "C02:block-is-count-size-payload-sync-with-nothing-left-over")
+	if ok && len(blocks) == 1 {
+		verifAssert(blocks[0].count == int64(rows), "C02:block-declares-the-row-count")
+		got, ok := refRawDecompress(comp, blocks[0].payload)
+		verifAssert(ok, "C02:block-payload-decompresses")
+		if ok {
+			verifAssert(refBytesEq(got, payload), "C02:block-payload-is-the-data-given")
+		}
+	}
+	verifReach("end")
+}
+
+// ---------------------------------------------------------------- C10 (1) bank step
+
+type reflectType = reflect.Type
+
+func verifBankType(k int) reflectType {
+	switch k {
+	case 0:
+		return int64Type
+	case 1:
+		return stringType
+	}
+	return boolType
+}
+
+// One ResourceBank operation from an arbitrary bank state satisfying the
+// representation invariant (len <= cap, array of cap elements of the arena's
+// type, size = sizeof(type), string store with len <= cap).
+func verifHarness_C10_bank_step() {
+	verifAllocMax(4096)
+	verifUnwind(600)
+	rb := &ResourceBank{}
+	nt := verifChoice("arenas", 3)
+	type ghost struct {
+		arr  unsafe.Pointer
+		cap  int
+		len  int
+		size int
+		snap []byte
+	}
+	var ghosts []ghost
+	for i := 0; i < nt; i++ {
+		typ := verifBankType(i)
+		cp := 16 * verifChoice("cap", 3) // 0, 16, 32
+		ln := 0
+		if cp > 0 {
+			switch verifChoice("len", 4) {
+			case 1:
+				ln = 1
+			case 2:
+				ln = cp - 1
+			case 3:
+				ln = cp
+			}
+		}
+		size := int(typ.Size())
+		var arr unsafe.Pointer
+		var snap []byte
+		if cp > 0 {
+			arr = unsafe_NewArray(unpackEFace(typ).data, cp)
+			// live allocations hold arbitrary scalar data (int64 arena) or stay
+			// zero (string arena: pointer words)
+			if i == 0 {
+				snap = verifBytes("live", ln*size)
+				copy(unsafe.Slice((*byte)(arr), cp*size), snap)
+			}
+		}
+		rb.types = append(rb.types, resourceType{ptyp: unpackEFace(typ).data, array: arr, cap: cp, len: ln, size: size})
+		ghosts = append(ghosts, ghost{arr, cp, ln, size, snap})
+	}
+	scap := 8 * verifChoice("scap", 2)
+	slen := 0
+	if scap > 0 {
+		slen = []int{0, 1, scap}[verifChoice("slen", 3)]
+	}
+	if scap > 0 {
+		rb.sData = make([]byte, slen, scap)
+		copy(rb.sData, verifBytes("sdata", slen))
+	}
+	liveStr := *(*string)(unsafe.Pointer(&rb.sData)) // a string handed out earlier
+	liveCopy := append([]byte(nil), rb.sData...)
+
+	switch verifChoice("op", 3) {
+	case 0: // Alloc of a registered or a new type
+		k := verifChoice("type", 3)
+		typ := verifBankType(k)
+		p := rb.Alloc(typ)
+		size := int(typ.Size())
+		zero := true
+		for _, b := range unsafe.Slice((*byte)(p), size) {
+			zero = verifAnd(zero, b == 0)
+		}
+		verifAssert(zero, "C10:allocated-block-is-zeroed")
+		// find the arena
+		var rt *resourceType
+		for i := range rb.types {
+			if rb.types[i].ptyp == unpackEFace(typ).data {
+				rt = &rb.types[i]
+			}
+		}
+		verifAssert(rt != nil, "C10:arena-exists-after-alloc")
+		if rt != nil {
+			verifAssert(rt.len >= 1 && rt.len <= rt.cap && rt.size == size, "C10:arena-invariant-after-alloc")
+			off := int(uintptr(p) - uintptr(rt.array))
+			verifAssert(off == (rt.len-1)*size && off+size <= rt.cap*size, "C10:block-is-the-next-free-slot-of-its-typed-array")
+			if k < nt {
+				g := ghosts[k]
+				if rt.array == g.arr {
+					verifAssert(rt.len == g.len+1, "C10:alloc-does-not-overlap-live-allocations")
+				}
+			}
+		}
+		// live allocations of every arena are untouched
+		for i, g := range ghosts {
+			if i == 0 && g.cap > 0 {
+				verifAssert(refBytesEq(unsafe.Slice((*byte)(g.arr), g.len*g.size), g.snap), "C10:live-allocations-unchanged-by-alloc")
+			}
+		}
+		verifReach("alloc")
+	case 1: // ToString
+		b := verifBytes("in", verifChoice("inlen", 4))
+		s := rb.ToString(b)
+		verifAssert(verifStrEq(s, string(b)), "C10:interned-string-has-the-bytes")
+		verifAssert(verifStrEq(liveStr, string(liveCopy)), "C10:earlier-strings-unchanged-by-tostring")
+		if verifSymbolic() && len(b) > 0 {
+			verifAssert(!verifSameObject(s, b), "C10:interned-string-does-not-alias-the-input")
+		}
+		verifAssert(len(rb.sData) == slen+len(b), "C10:string-store-grows-by-the-input")
+		verifReach("tostring")
+	case 2: // Close touches nothing but lengths
+		rb.Close()
+		for i, g := range ghosts {
+			verifAssert(rb.types[i].len == 0 && rb.types[i].cap == g.cap && rb.types[i].array == g.arr, "C10:close-resets-lengths-only")
+			if i == 0 && g.cap > 0 {
+				verifAssert(refBytesEq(unsafe.Slice((*byte)(g.arr), g.len*g.size), g.snap), "C10:close-does-not-touch-live-memory")
+			}
+		}
+		verifAssert(len(rb.sData) == 0 && verifStrEq(liveStr, string(liveCopy)), "C10:close-does-not-rewrite-strings")
+		verifReach("close")
+	}
 }
